@@ -293,6 +293,29 @@ def _worker_init(x64: bool, counter=None):
     import warnings
 
     warnings.filterwarnings("ignore")
+    _maybe_start_coverage()
+
+
+def _maybe_start_coverage():
+    """debugging aid (tools/cov.sh): VERIF_COV=<dir> records which lines of exponax the exploration executes"""
+    d = os.environ.get("VERIF_COV")
+    if not d:
+        return
+    import coverage
+    import multiprocessing.util as mpu
+
+    os.makedirs(d, exist_ok=True)
+    cov = coverage.Coverage(data_file=os.path.join(d, "cov"), data_suffix=True, source_pkgs=["exponax"])
+    cov.start()
+
+    def _save():
+        cov.stop()
+        cov.save()
+
+    mpu.Finalize(None, _save, exitpriority=100)
+    import atexit
+
+    atexit.register(_save)
 
 
 def _run_unit(args):
